@@ -670,12 +670,12 @@ theorem code_injective (a b : CSet) (h : code a = code b) : a = b := by
 
 /-! ## view resolution -/
 
-theorem findKey_append_some (S ext : List StreamSt) (key : Name × Kind × Bool) (idx : Nat)
+theorem findKey_append_some (S ext : List StreamSt) (key : StreamKey) (idx : Nat)
     (h : findKey S key = some idx) : findKey (S ++ ext) key = some idx := by
   simp only [findKey] at h ⊢
   rw [List.findIdx?_append, h]; rfl
 
-theorem findKey_lt (S : List StreamSt) (key : Name × Kind × Bool) (idx : Nat)
+theorem findKey_lt (S : List StreamSt) (key : StreamKey) (idx : Nat)
     (h : findKey S key = some idx) : idx < S.length := by
   simp only [findKey] at h
   exact (List.findIdx?_eq_some_iff_findIdx_eq.mp h).1
@@ -879,7 +879,7 @@ theorem collectStreams_metrics (tp : Temporality) (t : Nat) (ss : List StreamSt)
         match s.agg with
         | none => none
         | some g => if (s.collect tp t).2.isEmpty then none
-                    else some { name := s.name, float := s.float, dt := g.dt, pts := (s.collect tp t).2 } := by
+                    else some { scope := s.scope, name := s.name, float := s.float, dt := g.dt, pts := (s.collect tp t).2 } := by
   induction ss with
   | nil => rfl
   | cons s ss ih =>
@@ -1627,7 +1627,7 @@ theorem create_meas_nodup (L : Nat) (views : List View) (insts : List Inst) (p :
     intro m hm
     rcases List.mem_append.mp hm with h | h
     · exact hp m h
-    · simp at h; subst h; exact insertInstrument_nodup L views j0 i p.streams
+    · simp at h; subst h; exact insertInstrument_nodup L views (i.name.getD j0) i p.streams
 
 
 theorem allZip_map {α β : Type} (p : α → β → Bool) (f : α → β) (l : List α) (h : ∀ a, p a (f a) = true) :
@@ -1635,5 +1635,26 @@ theorem allZip_map {α β : Type} (p : α → β → Bool) (f : α → β) (l : 
   induction l with
   | nil => rfl
   | cons a l ih => simp [allZip, h a, ih]
+
+
+/-! ## views that do not match are irrelevant -/
+
+theorem resolveViews_filter (L : Nat) (j : Nat) (i : Inst) (vs : List View) (S : List StreamSt) (M : List Nat)
+    (mt : Bool) :
+    resolveViews L j i vs S M mt = resolveViews L j i (vs.filter fun v => v.matches j i) S M mt := by
+  induction vs generalizing S M mt with
+  | nil => rfl
+  | cons v vs ih =>
+    by_cases hm : v.matches j i
+    · simp only [List.filter_cons, hm, if_true, resolveViews]
+      split
+      · exact ih _ _ _
+      · split <;> exact ih _ _ _
+    · simp only [List.filter_cons, hm, resolveViews]
+      exact ih _ _ _
+
+theorem insertInstrument_filter (L : Nat) (views : List View) (j : Nat) (i : Inst) (S : List StreamSt) :
+    insertInstrument L views j i S = insertInstrument L (views.filter fun v => v.matches j i) j i S := by
+  simp only [insertInstrument, ← resolveViews_filter]
 
 end Otel.C12
